@@ -12,7 +12,12 @@ directory, to directories and files of the tree, dangling ones); finally 1-3 cal
 no_prompt=True)` with seeded option subsets.  After every call the disk is compared with
 the model's verdict per path (must stay / must go / no position), the sentinel directory
 and the listing of the scratch directory are compared with their state before, and the
-versioned content as the tree reports it must be unchanged."""
+versioned content as the tree reports it must be unchanged.
+
+Nested branches are placed everywhere, including the three layouts in which clean_tree
+used to destroy them (below an unversioned non-branch directory of a bzr tree; a bzr
+branch inside a git tree; a git repository rooted at a versioned directory of a bzr tree;
+fixed in /repo by 74fc42f, replays under findings/C46-finding-*.json)."""
 
 import hashlib
 import json
@@ -52,7 +57,8 @@ ASSUMPTIONS = [
     "paths below a versioned entry that the tree recorded as a non-directory and that is a directory now: no position (extras() does not look there)",
     "an exception raised by clean_tree is not judged (the property only speaks about what is deleted): it is counted (probe raised_*) and the safety oracles are still evaluated",
     "nothing at or below the root of a nested branch may change (control directory and working files); if a deletable unversioned directory contains a nested branch, the branch and the directories leading to it must stay and the model takes no position on the rest of that directory",
-    "layouts that hit the defects reported for this property (GUARDS: " + "nested_below_unversioned_dir, git_tree_nested_bzr, bzr_tree_git_in_versioned_dir" + ") are generated only in runs that lift the guard: VERIF_UNGUARDED=p lifts every guard in a share p of the runs; otherwise 20% of the runs lift the guards that have an open known_findings.json entry [C46, 'known-defect', guard]; a failure of a run that entered such a layout carries that signature",
+    "three layouts used to be kept behind guards because clean_tree destroyed nested branches there (a nested branch below an unversioned non-branch directory of a bzr tree; a nested bzr branch in a git tree; a git repository rooted at a VERSIONED directory of a bzr tree); they were fixed in /repo by 74fc42f (clean_tree._filter_out_nested_controldirs), the guards are gone, these layouts are part of the normal litter distribution of every run and failures there carry the ordinary oracle signature (findings/C46-finding-*.json are regression replays now; a plan key 'unguarded' of old replays is ignored)",
+    "in those layouts the model asserts: the nested branch, everything at/below its root and the directories leading to it stay; no position on the REST of an otherwise deletable unversioned directory that contains a nested branch (the fixed code keeps such a directory as a whole) and none on unversioned paths inside a versioned directory that is also the root of a nested git repository (the fixed code leaves them to the nested tree)",
     "the ignore file is litter like everything else: unversioned it is an unknown file (and deleting it changes what the next call considers ignored - the model re-reads it per call); in half of the runs that have one it is versioned (tree.add)",
     "symlink targets are relative; after every treesim operation the tree is observed exactly as C09 does, so that the recorded kinds the model tracks are the ones the tree has",
     "the comparison of what the tree reports about versioned paths covers, for git, index entries only (a directory that is versioned merely through tracked files below it and has been replaced on disk by an untracked file or symlink is an ordinary unversioned path)",
@@ -60,27 +66,8 @@ ASSUMPTIONS = [
 ]
 STEP_CAP = 200000
 ISOLATION = "thread"
-P_UNGUARDED = float(os.environ.get("VERIF_UNGUARDED", "0") or 0)
-P_LIFT = 0.2
 
 FILE, DIR, LINK = T.FILE, T.DIR, T.LINK
-
-# Layouts that run into defects reported for the code under test (see the final report of
-# the builder / known_findings.json).  While a guard is on the generator stays out.
-GUARDS = {
-    # bzr tree: a nested branch below an unversioned directory that is no branch itself:
-    # extras() reports the top directory only, _filter_out_nested_controldirs probes only
-    # that directory (FIXME in the code), shutil.rmtree deletes the nested branch
-    "nested_below_unversioned_dir": True,
-    # git tree: a nested bzr branch: git extras() knows only `.git` as a control directory,
-    # reports every file of sub/.bzr and every working file of the nested tree one by one;
-    # the nested-controldir filter only probes directories it is handed -> all deleted
-    "git_tree_nested_bzr": True,
-    # bzr tree: a git repository whose root is a VERSIONED directory of the outer tree:
-    # bzr extras() reports d/.git as an unknown directory; the filter probes d/.git (which
-    # is no control directory by itself) instead of d -> the repository is deleted
-    "bzr_tree_git_in_versioned_dir": True,
-}
 
 IGNORE_NAME = {"bzr": ".bzrignore", "git": ".gitignore"}
 
@@ -163,13 +150,11 @@ def link_text(item):
 
 
 class Layout:
-    def __init__(self, m, unguarded=()):
+    def __init__(self, m):
         self.m = m
         self.fl = m.flavour
         self.nests = {}  # root of a nested branch -> format
         self.ctrl = set()  # control directories created inside versioned directories
-        self.guards = {g for g, on in GUARDS.items() if on and g not in unguarded}
-        self.terr_of = {}  # nest root / control directory -> GUARDS entry it is the territory of
         self.ign_name = IGNORE_NAME[self.fl]
 
     # -- structure -----------------------------------------------------------------------
@@ -252,7 +237,7 @@ class Layout:
 
     # -- litter ----------------------------------------------------------------------------
     def classify(self, item):
-        """('ok' | 'skip', territory guard or None)."""
+        """('ok' | 'skip', name of the formerly guarded kind of layout the item creates or None)."""
         m, k = self.m, item["k"]
         p = item.get("p")
         if k == "ignorefile":
@@ -283,24 +268,12 @@ class Layout:
                         t = "nested_below_unversioned_dir"
                 elif fmt == "bzr":
                     t = "git_tree_nested_bzr"
-            if t is not None and t in self.guards:
-                return "skip", t
             return "ok", t
         raise KeyError(k)
 
-    def territory_of(self, q):
-        """The reported defect (GUARDS entry) in whose territory the nested branch at / around
-        / below q was placed, or None."""
-        for r, t in sorted(self.terr_of.items()):
-            if t and (T.inside(r, q) or T.inside(q, r)):
-                return t
-        return None
-
-    def apply(self, item, territory=None):
+    def apply(self, item):
         m, k = self.m, item["k"]
         p = item.get("p")
-        if k == "nest":
-            self.terr_of[p + "/.git" if item.get("at") else p] = territory
         if k == "file":
             m.disk[p] = (FILE, T.content(item["n"]), False)
         elif k == "dir":
@@ -390,26 +363,6 @@ def optstr(opts):
 # --------------------------------------------------------------------------------------
 
 
-def lifted_guards():
-    from simkit import findings
-
-    out = set()
-    for e in findings.load(PROPERTY):
-        s = e.get("signature") or []
-        if e.get("status") == "open" and len(s) >= 3 and s[0] == PROPERTY and s[1] == "known-defect" and s[2] in GUARDS:
-            out.add(s[2])
-    return sorted(out)
-
-
-def choose_unguarded(rng):
-    x = rng.random()
-    if x < P_UNGUARDED:
-        return sorted(GUARDS)
-    if x < P_LIFT:
-        return lifted_guards()
-    return []
-
-
 def gen_litter(rng, lay, n):
     """n litter items generated against (and applied to) the layout model."""
     m = lay.m
@@ -456,14 +409,14 @@ def gen_litter(rng, lay, n):
                 it["t"] = rng.choice(dirs if dirs and rng.random() < 0.6 else targets)
         else:
             fmt = rng.choice(["bzr", "git"])
-            lifted = set(GUARDS) - lay.guards
-            if "bzr_tree_git_in_versioned_dir" in lifted and lay.fl == "bzr" and rng.random() < 0.4:
+            if lay.fl == "bzr" and rng.random() < 0.2:
+                # a git repository rooted at a versioned directory of the outer tree
                 cands = sorted(d for d in m.inv if d and lay.walked(d))
                 if not cands:
                     continue
                 it = {"k": "nest", "p": rng.choice(cands), "fmt": "git", "at": 1, "n": fresh()}
             else:
-                par = pick_parent(prefer_unversioned=("nested_below_unversioned_dir" in lifted and rng.random() < 0.6))
+                par = pick_parent(prefer_unversioned=rng.random() < 0.3)
                 it = {"k": "nest", "p": path_in(par, NEST_NAMES), "fmt": fmt, "commit": rng.random() < 0.3, "n": fresh()}
         if lay.classify(it)[0] != "ok":
             continue
@@ -510,15 +463,12 @@ def generate(rng, tier):
     weights = T.swarm_weights(rng)
     weights["illegal"] = 0
     weights["lockcycle"] = 0
-    unguarded = choose_unguarded(rng)
     model = T.MTree(flavour)  # every treesim guard on: the history never enters those states
     ops = T.gen_ops(rng, model, rng.randint(3, 10), weights, names)
-    lay = Layout(model, unguarded)
+    lay = Layout(model)
     litter = gen_litter(rng, lay, rng.randint(3, 10))
     cleans = [gen_opts(rng) for _ in range(rng.randint(1, 3))]
     plan = {"flavour": flavour, "names": names, "ops": ops, "litter": litter, "cleans": cleans}
-    if unguarded:
-        plan["unguarded"] = unguarded
     return plan
 
 
@@ -554,10 +504,9 @@ def shrink_candidates(plan):
             p = copy.deepcopy(plan)
             p["litter"][i]["commit"] = False
             yield p
-    ung = plan.get("unguarded") or []
-    for i in range(len(ung)):
+    if "unguarded" in plan:  # key of replays recorded before the guards were removed: ignored
         p = copy.deepcopy(plan)
-        p["unguarded"] = ung[:i] + ung[i + 1 :]
+        del p["unguarded"]
         yield p
     for i, c in enumerate(plan.get("cleans") or []):
         for k in ("unknown", "ignored", "detritus"):
@@ -716,7 +665,6 @@ def check_call(sim, lay, tree, idx, opts, before, vbefore, obefore, after, vafte
         tag,
         [fl, cat, optstr(opts)],
         "clean_tree call %d %s: %s%s" % (idx, json.dumps(opts, sort_keys=True), detail, (" [also: %s]" % more) if more else ""),
-        territory=lay.territory_of(q) if tag == "nested_branch" else None,
     )
 
 
@@ -781,23 +729,22 @@ def execute(sim, plan):
     if snap != model.disk:
         raise Diverged("after the history the disk differs from the model: %r" % sorted(set(snap.items()) ^ set(model.disk.items()), key=repr)[:6])
     # 2. the litter
-    lay = Layout(model, plan.get("unguarded", ()))
+    lay = Layout(model)  # plan["unguarded"] (replays recorded while guards existed) is ignored
     napplied = 0
     for i, item in enumerate(plan["litter"]):
-        cls, terr = lay.classify(item)
+        cls, special = lay.classify(item)
         if cls != "ok":
             sim.event("litter-skip", i, item["k"])
             continue
         tree = apply_litter(tree, lay, item)
-        lay.apply(item, terr)
+        lay.apply(item)
         if item["k"] == "ignorefile" and item.get("add"):
             op = {"o": "add", "p": lay.ign_name, "id": "ignorefile-id"}
             if model.classify(op) == "ok":
                 tree = T.apply_op(tree, model, op)
                 model.apply(op)
-        if terr:
-            sim.probe("territory_" + terr)
-            sim.event("territory", terr)
+        if special:
+            sim.probe("layout_" + special)
         napplied += 1
         sim.probe("litter_" + item["k"] + ("_" + item["to"] if item["k"] == "link" else "") + ("_" + item["fmt"] if item["k"] == "nest" else ""))
         sim.event("litter", i, json.dumps(item, sort_keys=True))
@@ -908,13 +855,11 @@ def warm():
     tmp = tempfile.mkdtemp(prefix="verif-warm-", dir="/dev/shm")
     try:
         for fl in ("bzr", "git"):
-            for variant in (0, 1):
+            for variant in (0,):
                 sc = os.path.join(tmp, "%s%d" % (fl, variant))
                 os.makedirs(os.path.join(sc, "home"))
                 os.environ.update(VERIF_SCRATCH=sc, BRZ_HOME=os.path.join(sc, "home"), HOME=os.path.join(sc, "home"))
                 plan = {"flavour": fl, "ops": _warm_ops(), "litter": WARM_LITTER, "cleans": WARM_CLEANS}
-                if variant:
-                    plan["unguarded"] = sorted(GUARDS)
                 sim = Sim(1, plan, step_cap=10**6)
                 try:
                     execute(sim, plan)
